@@ -68,8 +68,14 @@ def gen_function(args):
         return dict(qual=qual, status=rep.status, reason=rep.reason, paths=rep.paths, outcomes=rep.outcomes,
                     obligations=obs, erased=rep.erased, assumed=rep.assumed, file=rep.file, lineno=rep.lineno,
                     seconds=round(time.time() - t0, 2))
-    except Exception:
-        return dict(qual=qual, status='checker-error', reason=traceback.format_exc(), obligations=[], paths=0, outcomes={},
+    except Exception as e:
+        tb = traceback.format_exc()
+        if isinstance(e, (KeyError, AttributeError, IndexError)) and '/contracts/' in tb.split('\n')[-4:][0] + tb:
+            # the sidecar names a local / field / loop that the function no longer has: the contract does not fit the code any more
+            last = [l for l in tb.splitlines() if l.strip()][-1]
+            return dict(qual=qual, status='contract-mismatch', reason=f"the contract of {qual} refers to something the code no longer has ({last})",
+                        obligations=[], paths=0, outcomes={}, erased=[], assumed=[], file=None, lineno=None, seconds=round(time.time() - t0, 2))
+        return dict(qual=qual, status='checker-error', reason=tb, obligations=[], paths=0, outcomes={},
                     erased=[], assumed=[], file=None, lineno=None, seconds=round(time.time() - t0, 2))
 
 
@@ -329,6 +335,7 @@ def run_property(prop, tier='quick', seed=0, out=sys.stdout):
             slowest=[dict(obligation=o['name'], seconds=o['result']['seconds'], solver=o['result']['solver'])
                      for o in sorted(allobs, key=lambda o: -o['result']['seconds'])[:5]],
             obligations_by_kind=count_by(allobs, 'kind'),
+            assumption_scan=assumption_scan(REG, quals),
             vacuity_covers=dict(paths=len(covers), not_refuted=covers_ok,
                                 rule="per path, the hypotheses with goal False are given to z3 (3 s); a function all of whose paths are refuted is a checker error; refuted single paths are branches that the quantifier-free pruning could not exclude"),
             violated=[n for n, _ in new_violations],
@@ -359,6 +366,18 @@ def run_property(prop, tier='quick', seed=0, out=sys.stdout):
     if undecided or undecided_fn:
         return 2
     return 0
+
+
+def assumption_scan(REG, quals):
+    """mechanical scan of the sidecars before each report: assumed contracts and `assume:` clauses in force for these functions"""
+    import glob
+    assumed = sorted(f"{q}: {c.note or 'assumed contract'}" for q, c in REG.contracts.items() if c.assumed)
+    clauses = set()
+    for f in glob.glob(os.path.join(VERIF, 'contracts', '*.py')):
+        for m in re.finditer(r"'(assume:[^']+)'", open(f).read()):
+            clauses.add(f"{os.path.basename(f)}: {m.group(1)}")
+    inline = sorted(q for q, c in REG.contracts.items() if c.inline) + sorted(getattr(REG, 'inline_ok', []))
+    return dict(assumed_contracts=assumed, assume_clauses=sorted(clauses), executed_inline_at_call_sites=inline)
 
 
 def count_by(obs, key):
